@@ -59,8 +59,9 @@ def check(ctx):
                 if "redeclared" in (b1 + b2) and "KF-C01-nameCollision" in listed:
                     kf_hits["KF-C01-nameCollision"] = kf_hits.get("KF-C01-nameCollision", 0) + 1
                     continue
-                if "expected type, found" in (b1 + b2) and "KF-C01-hoistedRawName" in listed:
-                    kf_hits["KF-C01-hoistedRawName"] = kf_hits.get("KF-C01-hoistedRawName", 0) + 1
+                errs = bytes.fromhex(g[3]).decode("utf-8", "replace")
+                if "is not valid Go source" in errs and "expected type, found" in errs and "KF-C18-hoistedRawName" in listed:
+                    kf_hits["KF-C18-hoistedRawName"] = kf_hits.get("KF-C18-hoistedRawName", 0) + 1
                     continue
                 ctx.violations.append({"kind": "the referenced form and its inline copy do not both generate a working package",
                                        "pair": g[0], "source": g[1], "generator_outcomes": g[2], "errors": bytes.fromhex(g[3]).decode("utf-8", "replace"),
